@@ -288,63 +288,7 @@ func runC04(w *World, r *Report) {
 	trxVerify("VerifyIssuer", [][2]string{{"IssuerSignature", "IssuerAddress"}})
 	trxVerify("VerifyIssuerReceiver", [][2]string{{"IssuerSignature", "IssuerAddress"}, {"ReceiverSignature", "ReceiverAddress"}})
 
-	if f := w.fx(r, "wallet", "Helper", "Verify"); f != nil {
-		fn := f.fn
-		msg, sig, hash, addr := fn.Params[1].Name(), fn.Params[2].Name(), fn.Params[3].Name(), fn.Params[4].Name()
-		var digest ssa.Value
-		digestNames := map[string]bool{}
-		for _, c := range f.calls("crypto/sha256.Sum256") {
-			if pathOf(c.Common().Args[0]) == msg {
-				digest = callValue(c)
-				digestNames[pathOf(digest)] = true
-				for _, ref := range *digest.Referrers() { // `digest := sha256.Sum256(…)` kept in a variable because it is sliced
-					if st, ok := ref.(*ssa.Store); ok {
-						digestNames[pathOf(st.Addr)] = true
-					}
-				}
-			}
-		}
-		digestPath := func(p, _ string) bool { return digestNames[p] }
-		var eqE, keyE, sigE []Edge
-		if digest != nil {
-			dp := pathOf(digest)
-			for _, c := range f.calls("bytes.Equal") {
-				a := c.Common().Args
-				pa, pb := pathOf(a[0]), pathOf(a[1])
-				if (pa == hash && digestPath(pb, dp)) || (pb == hash && digestPath(pa, dp)) {
-					eqE = append(eqE, passBool(c, 0, true)...)
-				}
-			}
-		}
-		var key ssa.Value
-		for _, c := range f.calls(cn("wallet", "Helper", "AddressToPubKey")) {
-			_, a := callArgs(c)
-			if pathOf(a[0]) == addr {
-				keyE = append(keyE, passErrNil(c)...)
-				key = resultAt(c, 0)
-			}
-		}
-		for _, c := range f.calls("crypto/ed25519.Verify") {
-			a := c.Common().Args
-			if key != nil && sameVal(a[0], key) && digest != nil && digestPath(pathOf(a[1]), pathOf(digest)) && pathOf(a[2]) == sig {
-				sigE = append(sigE, passBool(c, 0, true)...)
-			}
-		}
-		ok := true
-		n := 0
-		for _, ret := range returnsOf(fn) {
-			if !successReturn(ret) {
-				continue
-			}
-			n++
-			if !(behind(ret, eqE) && behind(ret, keyE) && behind(ret, sigE)) {
-				ok = false
-			}
-		}
-		r.check(ok && n > 0, "verification-chain", "wallet.Helper.Verify", w.Pos(fn.Pos()),
-			"success only behind sha256(message)==hash, AddressToPubKey(address) ok and ed25519.Verify(key(address), digest, signature) true",
-			fmt.Sprintf("hashEq-edges=%d key-edges=%d sig-edges=%d success-returns=%d", len(eqE), len(keyE), len(sigE), n))
-	}
+	walletVerifyChain(w, r, "verification-chain")
 	if f := w.fx(r, "wallet", "Helper", "AddressToPubKey"); f != nil {
 		fn := f.fn
 		addr := fn.Params[1].Name()
@@ -735,4 +679,67 @@ func addressBytesCovered(fn *ssa.Function, dec ssa.Value) (bool, string) {
 		}
 	}
 	return nSucc > 0, fmt.Sprintf("%d success returns", nSucc)
+}
+
+// walletVerifyChain: wallet.Helper.Verify reports success only behind the digest equality, the address
+// decoding and ed25519.Verify under the key of that very address (shared by C04 and C16: every notary
+// authorisation check ends here).
+func walletVerifyChain(w *World, r *Report, rule string) {
+	if f := w.fx(r, "wallet", "Helper", "Verify"); f != nil {
+		fn := f.fn
+		msg, sig, hash, addr := fn.Params[1].Name(), fn.Params[2].Name(), fn.Params[3].Name(), fn.Params[4].Name()
+		var digest ssa.Value
+		digestNames := map[string]bool{}
+		for _, c := range f.calls("crypto/sha256.Sum256") {
+			if pathOf(c.Common().Args[0]) == msg {
+				digest = callValue(c)
+				digestNames[pathOf(digest)] = true
+				for _, ref := range *digest.Referrers() { // `digest := sha256.Sum256(…)` kept in a variable because it is sliced
+					if st, ok := ref.(*ssa.Store); ok {
+						digestNames[pathOf(st.Addr)] = true
+					}
+				}
+			}
+		}
+		digestPath := func(p, _ string) bool { return digestNames[p] }
+		var eqE, keyE, sigE []Edge
+		if digest != nil {
+			dp := pathOf(digest)
+			for _, c := range f.calls("bytes.Equal") {
+				a := c.Common().Args
+				pa, pb := pathOf(a[0]), pathOf(a[1])
+				if (pa == hash && digestPath(pb, dp)) || (pb == hash && digestPath(pa, dp)) {
+					eqE = append(eqE, passBool(c, 0, true)...)
+				}
+			}
+		}
+		var key ssa.Value
+		for _, c := range f.calls(cn("wallet", "Helper", "AddressToPubKey")) {
+			_, a := callArgs(c)
+			if pathOf(a[0]) == addr {
+				keyE = append(keyE, passErrNil(c)...)
+				key = resultAt(c, 0)
+			}
+		}
+		for _, c := range f.calls("crypto/ed25519.Verify") {
+			a := c.Common().Args
+			if key != nil && sameVal(a[0], key) && digest != nil && digestPath(pathOf(a[1]), pathOf(digest)) && pathOf(a[2]) == sig {
+				sigE = append(sigE, passBool(c, 0, true)...)
+			}
+		}
+		ok := true
+		n := 0
+		for _, ret := range returnsOf(fn) {
+			if !successReturn(ret) {
+				continue
+			}
+			n++
+			if !(behind(ret, eqE) && behind(ret, keyE) && behind(ret, sigE)) {
+				ok = false
+			}
+		}
+		r.check(ok && n > 0, rule, "wallet.Helper.Verify", w.Pos(fn.Pos()),
+			"success only behind sha256(message)==hash, AddressToPubKey(address) ok and ed25519.Verify(key(address), digest, signature) true",
+			fmt.Sprintf("hashEq-edges=%d key-edges=%d sig-edges=%d success-returns=%d", len(eqE), len(keyE), len(sigE), n))
+	}
 }
